@@ -17,8 +17,11 @@ def minimise(plan, fails, extra_candidates=None, budget_runs=400, budget_s=20.0)
     t0 = time.time()
     runs = [0]
 
+    def exhausted():
+        return runs[0] >= budget_runs or time.time() - t0 > budget_s
+
     def ok(p):
-        if runs[0] >= budget_runs or time.time() - t0 > budget_s:
+        if exhausted():
             return False
         runs[0] += 1
         try:
@@ -30,7 +33,7 @@ def minimise(plan, fails, extra_candidates=None, budget_runs=400, budget_s=20.0)
     start = _size(best)
     changed = True
     rounds = 0
-    while changed and rounds < 6:
+    while changed and rounds < 6 and not exhausted():
         changed = False
         rounds += 1
         # 1. drop whole tasks
@@ -46,9 +49,9 @@ def minimise(plan, fails, extra_candidates=None, budget_runs=400, budget_s=20.0)
         for ti in range(len(best.get("tasks", []))):
             ops = best["tasks"][ti]
             chunk = max(1, len(ops) // 2)
-            while ops and chunk >= 1:
+            while ops and chunk >= 1 and not exhausted():
                 i = 0
-                while i < len(ops):
+                while i < len(ops) and not exhausted():
                     q = copy.deepcopy(best)
                     q["tasks"][ti] = ops[:i] + ops[i + chunk:]
                     if ok(q):
@@ -81,9 +84,9 @@ def minimise(plan, fails, extra_candidates=None, budget_runs=400, budget_s=20.0)
             else:
                 sc = best["schedule"]
                 chunk = max(1, len(sc) // 2)
-                while sc and chunk >= 1:
+                while sc and chunk >= 1 and not exhausted():
                     i = 0
-                    while i < len(sc):
+                    while i < len(sc) and not exhausted():
                         q = copy.deepcopy(best)
                         q["schedule"] = sc[:i] + sc[i + chunk:]
                         if ok(q):
@@ -105,9 +108,11 @@ def minimise(plan, fails, extra_candidates=None, budget_runs=400, budget_s=20.0)
         # 6. property specific argument shrinking (greedy, restart after each success)
         if extra_candidates is not None:
             progress = True
-            while progress and runs[0] < budget_runs:
+            while progress and not exhausted():
                 progress = False
                 for q in extra_candidates(best):
+                    if exhausted():
+                        break
                     if ok(q):
                         best, changed, progress = q, True, True
                         break
